@@ -98,12 +98,21 @@ func VerifC17Hist() {
 	inOpen, outOpen, listening := false, false, false
 	var logs []*c04log // one per Listen call
 	cur := -1
-	var stop func()
+	var stop, staleStop func()
 	var expect [][]byte // what the current listener must have received so far (per listener)
 	var expAll [][][]byte
 
+	if zz.Choice("out-port-open-at-the-start", 2) == 1 {
+		zz.Assert(out.Open() == nil, "out.Open:nil")
+		outOpen = true
+	}
 	for step := 0; step < k; step++ {
-		switch zz.Choice("call", 7) {
+		switch zz.Choice("call", 7+zz.Param("stale")) {
+		case 7: // the stop function of an earlier, already stopped listening is called once more: no effect
+			if staleStop == nil {
+				continue
+			}
+			staleStop()
 		case 0:
 			zz.Assert(in.Open() == nil, "in.Open:nil")
 			inOpen = true
@@ -128,6 +137,7 @@ func VerifC17Hist() {
 			}
 			lg := &c04log{}
 			var err error
+			staleStop = stop
 			stop, err = midi.ListenTo(in, lg.recv, midi.UseSysEx(), midi.UseTimeCode(), midi.UseActiveSense())
 			zz.Assert(err == nil && stop != nil, "listen:ok")
 			logs = append(logs, lg)
